@@ -107,7 +107,11 @@ func (fr *Frame) rd(st *State, comp, srt string, ref Term) Term {
 	if !layered(comp) {
 		return sel(fr.ctx.get(st, comp, srt), ref)
 	}
-	switch fr.v.classify(ref) {
+	cls := fr.v.classify(ref)
+	if st == fr.v.curRoot.entrySt {
+		cls = rcOld // nothing has been allocated yet in the entry state: every object is an old object
+	}
+	switch cls {
 	case rcOld:
 		a := fr.ctx.get(st, comp, srt)
 		t := sel(a, ref)
@@ -384,6 +388,10 @@ func (fr *Frame) storeObj(st *State, ref Term, structT types.Type, v Val) *State
 		case KArr:
 			// copy array contents
 			at := ft.Underlying().(*types.Array)
+			if v.Fields[i].A == "0" { // zero array value
+				st = fr.zeroElems(st, fv.A, at.Elem())
+				continue
+			}
 			for _, sc := range fr.v.leafComps(at.Elem()) {
 				comp := "E:" + typeName(at.Elem()) + sc.suffix
 				row := fr.rd(st, comp, arr2Sort(sc.sort), v.Fields[i].A)
@@ -1035,6 +1043,9 @@ func (fr *Frame) binop(ins ssa.Instruction, op token.Token, x, y Val, rt types.T
 		if uns {
 			return Val{K: KInt, T: rt, A: "(div " + x.A + " " + y.A + ")"}
 		}
+		if yc, ok := constOf(y.A); ok && yc.Sign() > 0 {
+			return Val{K: KInt, T: rt, A: tdiv(x.A, y.A)} // cannot overflow
+		}
 		r = tdiv(x.A, y.A)
 	case token.REM:
 		fr.addObl("div", "", implies(reach, not(eq(y.A, "0"))), "division by zero: "+ins.String(), fr.posOf(ins), fr.safetyProps(), false)
@@ -1135,6 +1146,19 @@ func (fr *Frame) convert(ins ssa.Instruction, x Val, from, to types.Type, st *St
 		}
 		if c, ok := constOf(x.A); ok && ok2 && c.Cmp(tlo) >= 0 && c.Cmp(thi) <= 0 {
 			return Val{K: KInt, T: to, A: x.A}
+		}
+		// piecewise-linear conversion when the source range spans less than one period of the target
+		if ok1 && ok2 {
+			size := new(big.Int).Add(new(big.Int).Sub(thi, tlo), big.NewInt(1))
+			if new(big.Int).Sub(fhi, flo).Cmp(size) < 0 || true {
+				negSize := new(big.Int).Neg(size)
+				if tlo.Sign() == 0 && flo.Cmp(negSize) >= 0 && fhi.Cmp(size) < 0 {
+					return Val{K: KInt, T: to, A: fr.nameTerm(ite("(< "+x.A+" 0)", "(+ "+x.A+" "+size.String()+")", x.A), "conv", "Int")}
+				}
+				if tlo.Sign() < 0 && flo.Sign() >= 0 && fhi.Cmp(new(big.Int).Add(thi, size)) <= 0 {
+					return Val{K: KInt, T: to, A: fr.nameTerm(ite("(> "+x.A+" "+thi.String()+")", "(- "+x.A+" "+size.String()+")", x.A), "conv", "Int")}
+				}
+			}
 		}
 		w := fr.nameTerm(fr.wrap(x.A, to), "conv", "Int")
 		return Val{K: KInt, T: to, A: w}
